@@ -60,6 +60,28 @@ def spec_normalized(xb, yb, types, S, D, eps):
     return A.reduce_("mean", tot)
 
 
+def _default_eps(it, f):
+    """The default of the `eps` parameter as written in the analysed source (the statement only asks for 'a small
+    epsilon': any positive literal not above 1/100 is accepted, so retuning the default is not a violation)."""
+    import ast as _ast
+
+    a = f.node.args
+    names = [x.arg for x in a.args]
+    if "eps" not in names:
+        raise AbstractError("normalized_smse_loss has no parameter named eps")
+    i = names.index("eps") - (len(names) - len(a.defaults))
+    if i < 0:
+        raise AbstractError("normalized_smse_loss: eps has no default")
+    try:
+        v = _ast.literal_eval(a.defaults[i])
+    except Exception:
+        raise Unsupported("default of eps is not a literal: %s" % _ast.unparse(a.defaults[i]))
+    fr = Fraction(str(v)) if isinstance(v, float) else Fraction(v)
+    if not (0 < fr <= Fraction(1, 100)):
+        raise AbstractError("default eps %s is not a small positive number" % v)
+    return fr
+
+
 def worker(job):
     repo, fn, D, types, ox, oy, hx, hy, reduce, same = job
     it, w = get_interp(repo)
@@ -85,8 +107,21 @@ def worker(job):
         res = attempt(lambda: f(x, y, steps, reduce))
         exp = spec_timestep(xb, yb, types, S, steps, reduce, batch)
     else:
-        res = attempt(lambda: f(x, y))
-        exp = spec_normalized(xb, yb, types, S, D, Fraction(1, 100000))
+        # reduce slot of the job carries the epsilon mode for the normalised loss: the function's own default, or an
+        # explicit value handed over positionally / by keyword -- the caller's epsilon is the one the definition uses
+        mode = reduce if isinstance(reduce, tuple) else ("default", None)
+        if mode[0] == "default":
+            res = attempt(lambda: f(x, y))
+            eps = _default_eps(it, f)
+        elif mode[0] == "positional":
+            eps = Fraction(*mode[1])
+            res = attempt(lambda: f(x, y, eps))
+        else:
+            eps = Fraction(*mode[1])
+            res = attempt(lambda: f(x, y, eps=eps))
+        cfg["reduce"] = None
+        cfg["eps"] = "the function's default" if mode[0] == "default" else "%s, passed %s" % (eps, mode[0])
+        exp = spec_normalized(xb, yb, types, S, D, eps)
     problems = []
     if isinstance(res, Rejected):
         problems.append(("rejected", "arguments with equal type sets were rejected: %s" % res.exc, None))
@@ -156,7 +191,7 @@ def run(ctx):
                     hists += [("append", "copy"), ("from_vector", "pytree")]
                 for hx, hy in hists:
                     for fn in FUNCS:
-                        reduces = {"smse_loss": ["mean", None], "timestep_smse_loss": ["mean", "max", None], "normalized_smse_loss": ["mean"]}[fn]
+                        reduces = {"smse_loss": ["mean", None], "timestep_smse_loss": ["mean", "max", None], "normalized_smse_loss": [("default", None), ("positional", (1, 7)), ("keyword", (3, 11))] if (hx, hy) == ("ctor", "ctor") else [("default", None)]}[fn]
                         for r in reduces:
                             jobs.append((ctx.repo, fn, D, tuple(s), ox, oy, hx, hy, r, False))
                         if hx == "ctor" and hy == "ctor":
